@@ -62,7 +62,7 @@ func lookupSym(fd *ast.FuncDecl) (cache string, ok bool) {
 					}
 				}
 			case *ast.CallExpr:
-				if s := src(x.Fun); s == "fmt.Errorf" || s == "errors.New" {
+				if s := src(x.Fun); (s == "fmt.Errorf" || s == "errors.New") && plainArgs(x) {
 					return lkval{k: "err"}
 				}
 				if len(x.Args) == 0 {
